@@ -352,10 +352,18 @@ RawSuffixes(u) == LET n == RawName(u) IN
   ELSE LET ps == Split(LStripSet(n, {DOT}), DOT) IN [i \in 1..(Len(ps) - 1) |-> <<DOT>> \o ps[i + 1]]
 PathDecoded(u) == IF u.path # <<>> THEN Unquote(PATH_UNQUOTER, u.path) ELSE IF u.netloc # <<>> THEN <<SLASH>> ELSE <<>>
 QueryStringDecoded(u) == IF u.query # <<>> THEN Unquote(QS_UNQUOTER, u.query) ELSE <<>>
-AccessorNames == {"scheme", "raw_authority", "raw_user", "raw_password", "raw_host", "explicit_port", "host_subcomponent", "user", "password", "port", "raw_path", "path", "path_safe", "raw_query_string", "query_string", "raw_fragment", "fragment", "raw_parts", "parts", "raw_name", "name", "raw_suffix", "suffix", "raw_suffixes", "suffixes", "raw_path_qs", "path_qs", "absolute", "bool", "str", "is_default_port"}
+HostPortSubM(u0) ==
+  LET rh == RawHost(u0) ep == ExplicitPort(u0) IN
+  IF ~IsOK(rh) \/ ~IsOK(ep) THEN [exc |-> "ValueError"] ELSE IF IsNone(rh.ok) THEN [ok |-> NONE]
+  ELSE LET raw == RStripSet(Get(rh.ok), {DOT})
+           h == IF Has(raw, COLON) THEN <<LBR>> \o raw \o <<RBR>> ELSE raw IN
+       IF IsNone(ep.ok) \/ ep.ok = DefaultPortOf(u0.scheme) THEN [ok |-> SOME(h)] ELSE [ok |-> SOME(h \o <<COLON>> \o NatText(Get(ep.ok)))]
+AccessorNames == {"host_port_subcomponent", "query", "scheme", "raw_authority", "raw_user", "raw_password", "raw_host", "explicit_port", "host_subcomponent", "user", "password", "port", "raw_path", "path", "path_safe", "raw_query_string", "query_string", "raw_fragment", "fragment", "raw_parts", "parts", "raw_name", "name", "raw_suffix", "suffix", "raw_suffixes", "suffixes", "raw_path_qs", "path_qs", "absolute", "bool", "str", "is_default_port"}
 \* one accessor at a time (only the observed ones are evaluated)
 AccM(f, u) ==
-  CASE f = "scheme" -> [ok |-> u.scheme]
+  CASE f = "host_port_subcomponent" -> HostPortSubM(u)
+    [] f = "query" -> [ok |-> QueryPairsReplace(u.query)]
+    [] f = "scheme" -> [ok |-> u.scheme]
     [] f = "raw_authority" -> [ok |-> u.netloc]
     [] f = "raw_user" -> OptR(RawUser(u))
     [] f = "raw_password" -> OptR(RawPassword(u))
